@@ -489,7 +489,9 @@ class Ctx:
         args = n["inner"][1:]
         ty = n.get("type", {})
         tq = ty.get("desugaredQualType") or ty.get("qualType", "")
-        if nm in ("max", "lowest", "min", "epsilon") and not args and tq.replace("const", "").strip() == "double":
+        ckind = self.strip(n["inner"][0]).get("referencedDecl", {}).get("kind")
+        if nm in ("max", "lowest", "min", "epsilon") and not args and tq.replace("const", "").strip() == "double" and ckind == "CXXMethodDecl":
+            # a static member function without arguments returning double: std::numeric_limits<double>::max() etc.
             return S({"max": "(nmaxval N)", "lowest": "(nneg N (nmaxval N))", "min": "(nminpos N)", "epsilon": "(nepsilon N)"}[nm])
         if nm in ("Zero", "Constant", "Ones") and len(args) == (1 if nm == "Constant" else 0):
             m = RE_MAT.search(tq)
@@ -785,6 +787,8 @@ class Ctx:
         src = self.expr(rv["inner"][-1])
         if src.k != "pts":
             raise Unsupported("range-for over something else than the point set")
+        if parts[-1].get("kind") != "CompoundStmt" or rng[-1] is parts[-1]:
+            raise Unsupported("range-for body is not a block")
         loopvar = rng[-1]["inner"][0]
         self.points_fold(src, parts[-1], elem_var=loopvar["name"], saved=dict(self.locals))
 
